@@ -224,7 +224,20 @@ def request_id_problems(P: Project, send: FuncInfo, only=None) -> List[tuple]:
                 vals = [x.value for x in walk_local(f.node) if isinstance(x, ast.Assign) and len(x.targets) == 1 and isinstance(x.targets[0], ast.Name) and x.targets[0].id == v.id]
                 if len(vals) == 1:
                     t = ast.unparse(vals[0])
-            if re.fullmatch(r"(str\()?uuid\.uuid4\(\)(\.hex)?\)?", t):
+            if is_minted(t):
                 continue
             out.append((f, c, t))
     return out
+
+
+def is_minted(text: str) -> bool:
+    """the expression is made of a uuid4 and text operations on it alone (`str(uuid.uuid4())`, `uuid.uuid4().hex`,
+    `f"{uuid.uuid4()}"`, `"req-" + uuid4().hex`): fresh for every evaluation, and never empty"""
+    t = text.strip().strip("<>")
+    try:
+        n = ast.parse(t, mode="eval").body
+    except SyntaxError:
+        return False
+    if "uuid4()" not in t:
+        return False
+    return all(x.id in ("uuid", "uuid4", "str", "format") for x in ast.walk(n) if isinstance(x, ast.Name))
